@@ -288,6 +288,7 @@ type instantiator struct {
 	boundMap    map[boundParam]int
 	instances   []*instance
 	instanceMap *container.IntSliceMap[*instance] // [nonterm, boundParam #1, ...] ->
+	sets        map[*TokenSet]*TokenSet           // instantiated (possibly recursive) token sets
 }
 
 func (i *instantiator) resolveInstance(context *instance, nonterm int, args []Arg) *instance {
@@ -334,12 +335,18 @@ func (i *instantiator) doSet(set *TokenSet) *TokenSet {
 		}
 		return set
 	}
-	ret := *set
+	if ret, ok := i.sets[set]; ok {
+		// Note: named sets can refer to each other (and to themselves).
+		return ret
+	}
+	ret := new(TokenSet)
+	*ret = *set
+	i.sets[set] = ret
 	ret.Sub = make([]*TokenSet, 0, len(set.Sub))
 	for _, sub := range set.Sub {
 		ret.Sub = append(ret.Sub, i.doSet(sub))
 	}
-	return &ret
+	return ret
 }
 
 func (i *instantiator) check(context *instance, p *Predicate) bool {
@@ -440,7 +447,7 @@ func (i *instantiator) suffix(args []boundParam) string {
 }
 
 func newInstantiator(m, out *Model) *instantiator {
-	ret := &instantiator{m: m, out: out, boundMap: make(map[boundParam]int)}
+	ret := &instantiator{m: m, out: out, boundMap: make(map[boundParam]int), sets: make(map[*TokenSet]*TokenSet)}
 	ret.instanceMap = container.NewIntSliceMap(ret.allocate)
 	return ret
 }
